@@ -46,7 +46,15 @@ type ScriptPlan struct {
 	// ExtBlock (hellos without ECH that do not offer TLS 1.3): "none" = the
 	// hello ends after the compression methods, "empty" = an extensions block
 	// of length zero.
-	ExtBlock    string `json:"ext_block,omitempty"`
+	ExtBlock string `json:"ext_block,omitempty"`
+	// Prime: before the connection under test the process serves a connection
+	// under this other config.
+	Prime *KeySpec `json:"prime,omitempty"`
+	// DupOuter: the outer hello repeats the type of a referenced extension.
+	DupOuter bool `json:"dup_outer,omitempty"`
+	// FragmentLen (hellos without ECH / GREASE): pad the hello so that the
+	// record fragment has exactly this many octets.
+	FragmentLen int    `json:"fragment_len,omitempty"`
 	RecVer      uint16 `json:"rec_ver"`
 	LegacyVer   uint16 `json:"legacy_ver,omitempty"`  // ClientHello.legacy_version of a plain hello (0 = 0x0303)
 	Compression []byte `json:"compression,omitempty"` // legacy_compression_methods of a plain hello (nil = {0})
@@ -180,6 +188,13 @@ func buildScript(seed uint64, p *ScriptPlan) (*built, error) {
 		}
 		if p.ExtBlock != "" && !p.Grease {
 			h.Exts, h.NoExtBlock = nil, p.ExtBlock == "none"
+		}
+		if p.FragmentLen > 0 && p.ExtBlock == "" {
+			// a padding extension (RFC 7685) brings the record's fragment to
+			// exactly FragmentLen octets (2^14 is the most a plaintext record holds)
+			if cur := len(h.Record(recVer)) - 5; p.FragmentLen >= cur+4 {
+				h.Exts = append(h.Exts, echbox.Ext{Type: 21, Data: make([]byte, p.FragmentLen-cur-4)})
+			}
 		}
 		b.outer = h
 		b.outerRec = h.Record(recVer)
@@ -432,6 +447,21 @@ func buildScript(seed uint64, p *ScriptPlan) (*built, error) {
 		outer.Exts = slices.Insert(outer.Exts, pos, oe)
 	}
 
+	if p.DupOuter && to > from {
+		// the outer hello carries the type of one referenced extension a second
+		// time, further down and with another body: a reference resolves to the
+		// first extension of that type at or after the pointer (draft, Appendix B)
+		// (one whose body is opaque to the front: a second server_name, ALPN or
+		// supported_versions would have to be well-formed in its own right)
+		for k := 0; k < to-from; k++ {
+			ref := inner.Exts[from+(int(seed%1024)+k)%(to-from)]
+			if ref.Type != 0 && ref.Type != 16 && ref.Type != 43 {
+				outer.Exts = append(outer.Exts, echbox.Ext{Type: ref.Type, Data: append([]byte{0x5a, 0xa5}, ref.Data...)})
+				break
+			}
+		}
+	}
+
 	// key / info / suite substitutions (C02)
 	sealPub, sealCfg, sealID, sealSuite := tpub, tcfg, p.Target.ID, suite
 	for _, m := range p.Mutations {
@@ -460,6 +490,16 @@ func buildScript(seed uint64, p *ScriptPlan) (*built, error) {
 			if m.A%4 != 3 {
 				_, _, sealCfg = k.material()
 			}
+		case "info-concat": // right key, info string over the configs of ALL the candidates before it and its own
+			var cat []byte
+			for _, k := range p.Keys {
+				_, _, c := k.material()
+				cat = append(cat, c...)
+				if k.KeySeed == p.Target.KeySeed {
+					break
+				}
+			}
+			sealCfg = cat
 		case "wrong-id-ext": // the extension names another config id than the one sealed for
 			sealID = p.Target.ID + byte(1+m.A%255)
 		case "unlisted-suite": // sealed (and labelled) with a suite the key's config does not list
@@ -744,6 +784,21 @@ func executeScript(t *testing.T, prop string, seed uint64, p *ScriptPlan) *core.
 		trailer = append(append(echbox.Record(20, 0x0303, []byte{1}), b.outerRec...), trailer...)
 	}
 	in := append(append([]byte(nil), b.outerRec...), trailer...)
+	if p.Prime != nil {
+		// an earlier connection of the same process, served under another
+		// config (the key pair may be the same: a re-issued config)
+		pp := *p
+		pp.Prime, pp.Mutations, pp.Trailer, pp.Chunks = nil, nil, nil, nil
+		pp.Target, pp.Keys, pp.Expect, pp.SuiteIdx = *p.Prime, []KeySpec{*p.Prime}, "accept", 0
+		if pb, perr := buildScript(core.Mix(seed, "prime"), &pp); perr == nil {
+			po, _ := runScriptW(pb.keys, pb.outerRec, nil, 0, nil)
+			if po.err != nil || !po.accepted {
+				res.Fail(prop, "rejected-valid", "earlier connection of the process (another config) not accepted", "err=%v", po.err)
+				return res
+			}
+			res.Probe("earlier_connection_other_config")
+		}
+	}
 	o, _ := runScriptW(b.keys, in, p.Chunks, p.ReadBuf, flight)
 	if flight != nil {
 		res.Probe("passthrough_hrr_second_hello")
